@@ -16,6 +16,7 @@ struct Diag {
 	std::string file; // "(null)" when the context handed to the error function has no file name
 	int line;
 	std::string sec;  // name of the context handed to the error function
+	std::string msg;  // the formatted message
 };
 
 struct OpResult {
